@@ -73,7 +73,7 @@ def model_jobs(quick):
         ("m_contract_func", "contract", CONTRACT_INVS, dict(MaxOps=3, KindsM=fk, WithFunc=True)),
         ("m_contract_deep", "contract", CONTRACT_INVS, dict(deep)),
         ("m_contract_list", "contract", CONTRACT_INVS,
-         dict(MaxOps=3, KindsM={"PAREN", "NEG", "CMP", "ADD"}, WithList=True)),
+         dict(MaxOps=3, KindsM={"PAREN", "CMP", "ADD"}, WithList=True)),
         ("m_neg_wrapped", "negative", ["Wrapped"], dict(MaxOps=3, **mech)),
         ("m_neg_stable", "negative", ["Stable"], dict(MaxOps=3, **mech)),
         ("m_neg_regroup", "negative", ["NoRegroup"], dict(deep, **mech)),
@@ -302,6 +302,8 @@ class Batch:
         """every tree is loaded in `per_tree` host positions (rotating, so that all six see the same share);
         small trees, leads and every 10th tree in all six"""
         n = len(HOSTS)
+        if tr["src"][0][0] == "LB":
+            return [0]         # a bare list expression is a CLASS EXPRESSION form (elsewhere the value is a string)
         if tr.get("ops", 0) <= self.all_hosts_upto or idx % 10 == 0:
             return list(range(n))
         a = (idx + self.ck.seed) % n
